@@ -252,7 +252,7 @@ def _xsld_unit(mode):
                 contracts=dict(XRAY_REC, **{FORMULAS + ".formula": NC.c_formula_for_scattering,
                                             "AbstractFormula.atoms@get": NC.c_atoms_of_abstract}),
                 inline={XSF + ".xray_energy"},
-                loops={(target, 1): {"define": _xsld_defs(), "invariant": _xsld_inv,
+                loops={(target, 1): {"iter": "compound.atoms.items()", "define": _xsld_defs(), "invariant": _xsld_inv,
                                      "havoc": {"f1": lambda E, st: st.fresh("f1_h", z3.RealSort()),
                                                "f2": lambda E, st: st.fresh("f2_h", z3.RealSort())}}},
                 replay={"module": "c05", "task": "replay"})
